@@ -149,8 +149,12 @@ def r3(fx):
         def w(matrix, matrix_size, out, **kw):
             calls.append((kind, out, kw))
         return w
-    genv = callable_env(fx.forest, 'writers', it)
-    table = {k: mk(k) for k in C(fx, '_VALID_SERIALIZERS', 'writers')}
+    refs = C(fx, '_VALID_SERIALIZERS', 'writers')
+    need(isinstance(refs, dict) and all(isinstance(v, ev.FuncRef) for v in refs.values()), '_VALID_SERIALIZERS is not a table of serialiser functions')
+    # recording stand-ins for the serialisers themselves: they stand in wherever the module refers to them (this table, tables
+    # derived from it, helpers that call a serialiser)
+    over = {v.name: mk(k) for k, v in refs.items()}
+    need(len(over) == len(refs), 'two kinds share one serialiser')
 
     class GZ:
         _model = ('open',)
@@ -163,8 +167,8 @@ def r3(fx):
     class CM:
         def __init__(self, v):
             self._cm_value = v
-    genv['_VALID_SERIALIZERS'] = table
-    genv['gzip'] = GZ()
+    genv = callable_env(fx.forest, 'writers', it, dict(over, gzip=GZ()))
+    table = genv['_VALID_SERIALIZERS']
     save = FuncVal(fx.fn('writers', 'save'), genv, it)
     kinds = sorted(table)
     yield ob('serialiser table has the 12 kinds', kinds == sorted(['svg', 'png', 'eps', 'txt', 'pdf', 'ans', 'pbm', 'pam', 'ppm', 'tex', 'xbm', 'xpm']),
@@ -579,18 +583,33 @@ def r8(fx):
             if e.name != 'ValueError':
                 bad.append((c, e.name))
     yield ob('_color_to_rgb refuses malformed colours and alpha channels with ValueError', not bad, fx.fn('writers', '_color_to_rgb'), got=bad[:4], want=[])
-    vw = FuncVal(fx.fn('writers', '_valid_width_height_and_border'), genv, it)
-    bad = []
-    for scale, border, want in ((1, None, (29, 29, 4)), (2, 0, (42, 42, 0)), (0.5, 1, (11.5, 11.5, 1)), (0, 1, 'ValueError'), (-1, 1, 'ValueError'),
-                                (-0.5, 1, 'ValueError'), (1, -1, 'ValueError'), (1, 0.5, 'ValueError'), (3, -2, 'ValueError')):
-        try:
-            got = tuple(vw((21, 21), scale, border))
-        except PyRaise as e:
-            got = e.name
-        if got != want:
-            bad.append((scale, border, got, want))
-    yield ob('_valid_width_height_and_border: scale <= 0, negative or fractional border -> ValueError; else ((size+2b)*s, border)', not bad,
-             fx.fn('writers', '_valid_width_height_and_border'), got=bad[:3], want=[])
+    # the private size helper, as long as it exists with the reference interface (what it guarantees to the serialisers is decided
+    # again, serialiser by serialiser, by the rendering obligation below and by the dimension obligations of C09 / C10 / C13)
+    try:
+        vfn = fx.fn('writers', '_valid_width_height_and_border')
+    except Unknown:
+        vfn = None
+    shape_ok = False
+    if vfn is not None and src.all_params(vfn) == ['matrix_size', 'scale', 'border']:
+        vw = FuncVal(vfn, genv, it)
+        bad, shape_ok = [], True
+        for scale, border, want in ((1, None, (29, 29, 4)), (2, 0, (42, 42, 0)), (0.5, 1, (11.5, 11.5, 1)), (0, 1, 'ValueError'), (-1, 1, 'ValueError'),
+                                    (-0.5, 1, 'ValueError'), (1, -1, 'ValueError'), (1, 0.5, 'ValueError'), (3, -2, 'ValueError')):
+            try:
+                got = vw.call_in_order((21, 21), scale, border)
+                if not isinstance(got, tuple) or len(got) != 3:
+                    shape_ok = False
+                    break
+            except PyRaise as e:
+                got = e.name
+            if got != want:
+                bad.append((scale, border, got, want))
+        if shape_ok:
+            yield ob('_valid_width_height_and_border: scale <= 0, negative or fractional border -> ValueError; else ((size+2b)*s, border)', not bad,
+                     vfn, got=bad[:3], want=[])
+    if not shape_ok:
+        yield ob('_valid_width_height_and_border: no helper with the reference interface; decided serialiser by serialiser below', True, fx.forest.mod('writers'),
+                 where='writers')
     # every sized serialiser refuses a bad scale / border before it opens the output (rendered on a pattern symbol)
     from . import render
     writersl = ['write_svg', 'write_eps', 'write_png', 'write_pdf', 'write_pbm', 'write_pam', 'write_ppm', 'write_xpm', 'write_xbm', 'write_tex']
